@@ -18,7 +18,13 @@ def build(ctx):
     f = fxu.fx_parts(ctx)
     import units.ord as ordu
     o = ordu.ord_parts(ctx)
-    ar = drvu.approot_src(ctx, ['type Error', 'struct Options', 'fn run_acb_app_to_delta_models', 'struct AppSummaryError', 'fn run_acb_app_summary_to_model'])
+    ar = drvu.approot_src(ctx, ['type Error', 'struct Options', 'fn run_acb_app_to_delta_models', 'struct AppSummaryError', 'fn run_acb_app_summary_to_model', 'fn run_acb_app_summary_to_console'])
+    ar.sub(r'(?m)^#\[cfg\(not\(target_arch = "wasm32"\)\)\]\n', '', 'select')
+    ar.replace('for (sec, e) in err_struct.sec_errors {', 'let __errs = hole_errors_into_vec(err_struct.sec_errors);\n            for (sec, e) in __errs {', 'H')
+    ar.replace('for (warning, secs) in summ_data.warnings {', 'let __warns = hole_warnings_into_vec(summ_data.warnings);\n        for (warning, secs) in __warns {', 'H')
+    ar.sub(r'(?s)let csv_txs: Vec<crate::portfolio::CsvTx> = summ_data\s*\.txs\s*\.into_iter\(\)', 'let csv_txs: Vec<crate::portfolio::CsvTx> = crate::itx::vec_iter(summ_data.txs)', 'R32', required=True)
+    ar.replace('match write_txs_to_csv(&csv_txs, &mut WriteHandle::stdout_write_handle()) {', 'match hole_write_txs_to_stdout(&csv_txs) {', 'H')
+
     ar.replace("for (sec, delta_res) in deltas_results_by_sec {", "let __res = hole_results_into_vec(deltas_results_by_sec);\n    for (sec, delta_res) in __res {", 'H')
     app_use = (drvu.APP_USE + "use crate::portfolio::summary::{make_aggregate_summary_txs, CollectedSummaryData};\n")
     app = mod('app', mod('approot', app_use + ar.text()))
@@ -48,6 +54,7 @@ def OVERLAY_SPLIT(op):
 
 TAG_RULES = [
     (r'approot::fn run_acb_app_summary_to_model', ['C10', 'C04']),
+    (r'approot::fn run_acb_app_summary_to_console', ['C10']),
     (r'approot::', ['C07', 'C08', 'C16', 'C04']),
     (r'summary::', ['C10']),
 ] + bk.TAG_RULES
